@@ -140,6 +140,18 @@ async function run (req) {
         }
         if (step.native.err !== undefined) { problems.push({ step: i, kind: 'rewrite-did-not-throw' }); continue }
         latest[step.file] = { content: res.content, code: step.code, step }
+      } else if (step.op === 'flood') {
+        // many other files go through the same rewriter (a long-running process)
+        const key = JSON.stringify(step.config || {})
+        if (!rewriters[key]) rewriters[key] = new p.Rewriter(step.config || {})
+        for (let k = 0; k < step.n; k++) {
+          const f = '/virt/flood/f' + k + '.js'
+          table.set(f + '\0' + step.code, step.native)
+          rewriters[key].rewrite(step.code, f)
+          table.delete(f + '\0' + step.code)
+          byFile.delete(f)
+        }
+        notes.floods = (notes.floods || 0) + 1
       } else if (step.op === 'probe') {
         const cur = latest[step.file]
         if (!cur) continue
